@@ -1674,6 +1674,14 @@ def rule_r14(prog, res) -> None:
     shared_rule(res, c12.rule_r4, "C12", "C12.R4", "C01.R14")
 
 
+def rule_r15(prog, res) -> None:
+    """the stored radius of a patch is measured from the centre that is stored with it: the linkage prunes pairs of patches by centre distance and radii, so a radius around another point (the centroid of the data when centres were given) does not enclose the patch and reachable neighbours are unlinked (= C12.R1)"""
+    from . import c12
+    from .common import shared_rule
+
+    shared_rule(res, c12.rule_r1, "C12", "C12.R1", "C01.R15")
+
+
 RULES = [
     ("C01.R1", rule_r1, QUICK),
     ("C01.R2", rule_r2, QUICK),
@@ -1689,4 +1697,5 @@ RULES = [
     ("C01.R12", rule_r12, QUICK),
     ("C01.R13", rule_r13, QUICK),
     ("C01.R14", rule_r14, QUICK),
+    ("C01.R15", rule_r15, QUICK),
 ]
